@@ -571,7 +571,7 @@ class Project:
 
         .. # noqa: DAR402
         """
-        result_name = re.sub(self._result_registry.result_pattern, "", result_name)
+        result_name = re.sub(self._result_registry.run_specifier_pattern, "", result_name)
         return self.get_result_path(result_name, latest=True)
 
     def load_result(self, result_name: str, *, latest: bool = False) -> Result:
@@ -622,7 +622,7 @@ class Project:
 
         .. # noqa: DAR402
         """
-        result_name = re.sub(self._result_registry.result_pattern, "", result_name)
+        result_name = re.sub(self._result_registry.run_specifier_pattern, "", result_name)
         return self.load_result(result_name, latest=True)
 
     def create_scheme(
